@@ -166,6 +166,19 @@ def c05_run(item: dict) -> dict:
         return res
     ref_view = ops_view(ref["ok"])
     res["ref_ops"] = sum(len(r["ops"]) for r in ref["ok"]["routines"])
+    # (0) the anchor: the reference configuration against the program in which every call is replaced, textually and
+    #     independently of the compiler, by the macro's body (arguments substituted, `return` leaving only the macro,
+    #     labels renamed per expansion)
+    inl_src = macrolib.inlined_source(lib)
+    inl = compile_once(_single_vfs(inl_src), "/proj/SCRIPT/main.exps", [])
+    res["configs"] += 1
+    if "ok" in inl:
+        res["kinds"]["textual-inlining"] = res["kinds"].get("textual-inlining", 0) + 1
+        if ops_view(inl["ok"]) != ref_view:
+            viol("macro-call-equals-inlined-body", "ops-differ", {"source": ref_src, "inlined_source": inl_src})
+    else:
+        # a string argument that reaches a condition through two levels of parameters has no textual counterpart
+        res["kinds"]["textual-inlining-not-expressible"] = res["kinds"].get("textual-inlining-not-expressible", 0) + 1
     # (a) definition order
     prng = seeds.stream(run_seed, "perm")
     names = list(lib.macros)
